@@ -1189,3 +1189,118 @@ func ruleDelimParity(p *Prog, r *Report, le *litEval, pkg, name string) {
 	r.Floor(rule, n, 40)
 	r.OK(rule, key, p.Pos(lv.Pos), fmt.Sprintf("%d Ps/Pe characters sit at the positions their category requires", n))
 }
+
+// ruleCategoryBlocks — R-TAB/blocks: UnicodeData.txt describes the large uniform blocks (CJK ideographs, Hangul syllables,
+// Tangut, private use, surrogates) by a <…, First>/<…, Last> pair of lines; a generator that reads the file line by line
+// emits the two end points only, as one entry {Lo, Hi, Stride: Hi-Lo}. In the general-category tables of the module (a
+// *unicode.RangeTable variable named after a two-letter category), no two-point entry may have all the code points between
+// its ends in the same category of the Go release running the check: such an entry is a block whose interior was lost.
+func ruleCategoryBlocks(p *Prog, r *Report, tables map[*types.Var]*rangeTable, pkg string, floor int) {
+	const rule = "R-TAB/blocks"
+	n := 0
+	var vars []*types.Var
+	for v := range tables {
+		vars = append(vars, v)
+	}
+	sort.Slice(vars, func(i, j int) bool { return vars[i].Name() < vars[j].Name() })
+	for _, v := range vars {
+		if v.Pkg() == nil || v.Pkg().Path() != p.pkgPath(pkg) {
+			continue
+		}
+		std, ok := unicode.Categories[v.Name()]
+		if !ok || len(v.Name()) != 2 {
+			continue
+		}
+		n++
+		key := pkg + "." + v.Name()
+		r.Instance(rule, key)
+		rt := tables[v]
+		bad := ""
+		pos := rt.pos
+		for _, e := range append(append([]rng{}, rt.r16...), rt.r32...) {
+			if e.stride != e.hi-e.lo || e.hi-e.lo < 8 {
+				continue
+			}
+			all := true
+			for c := e.lo + 1; c < e.hi; c++ {
+				if !unicode.Is(std, rune(c)) {
+					all = false
+					break
+				}
+			}
+			if all {
+				bad = fmt.Sprintf("the entry {%#x, %#x, stride %d} holds its two ends only, while every code point between them has the category %s: the interior of a First/Last block of UnicodeData.txt was lost (%d code points)", e.lo, e.hi, e.stride, v.Name(), e.hi-e.lo-1)
+				pos = e.pos
+				break
+			}
+		}
+		r.Check(bad == "", rule, key, p.Pos(pos), "no two-point entry spans a uniform block of the category"+pref(bad))
+	}
+	r.Floor(rule, n, floor)
+}
+
+// ruleScriptToLang — R-TAB/scriptlang: the representative language that ScriptToLang gives for a script is a language the
+// library itself knows as written in that script (languagesInfos[lang].scripts contains it): otherwise enforceLanguages
+// replaces a language "not used for the script" by another one that is not either.
+func ruleScriptToLang(p *Prog, r *Report, le *litEval, pkg, mapName, table string, floor int) {
+	const rule = "R-TAB/scriptlang"
+	mv := le.Var(p.Obj(pkg, mapName).(*types.Var))
+	if mv.Kind != LMap {
+		undecided("P-LIT: %s.%s is not a map literal", pkg, mapName)
+	}
+	tv := le.Var(p.Obj(pkg, table).(*types.Var))
+	if tv.Kind != LList {
+		undecided("P-LIT: %s.%s is not an array literal", pkg, table)
+	}
+	scriptsOf := map[int64][]int64{}
+	for i, e := range tv.Elems {
+		e = le.resolve(e)
+		if e == nil || e.Kind != LStruct {
+			continue
+		}
+		sc := le.resolve(e.Fields["scripts"])
+		if sc == nil || sc.Kind != LList {
+			continue
+		}
+		for _, s := range sc.Elems {
+			if x, ok := s.Int(); ok {
+				scriptsOf[tv.Index[i]] = append(scriptsOf[tv.Index[i]], x)
+			}
+		}
+	}
+	key := pkg + "." + mapName
+	r.Instance(rule, key)
+	known := constInt(p, pkg, "knownLangsCount")
+	n := 0
+	for i, k := range mv.Keys {
+		sv, ok1 := k.Int()
+		lg, ok2 := mv.Elems[i].Int()
+		if !ok1 || !ok2 {
+			undecided("P-LIT: %s.%s has a non-constant entry", pkg, mapName)
+		}
+		if lg == 0 || lg >= known {
+			continue // no language, or a language nothing is known about (UseScript answers true)
+		}
+		n++
+		found := false
+		for _, s := range scriptsOf[lg] {
+			if s == sv {
+				found = true
+			}
+		}
+		if !found {
+			tag := ""
+			if lg < int64(len(tv.Elems)) {
+				if e := le.resolve(tv.Elems[lg]); e != nil && e.Kind == LStruct {
+					if c := e.Fields["lang"]; c != nil && c.Const != nil {
+						tag = c.Const.ExactString()
+					}
+				}
+			}
+			r.Bad(rule, key, p.Pos(k.Pos), fmt.Sprintf("the script %#x is given the language #%d %s, which %s does not list as written in that script: the language chosen for a run is not compatible with its script", sv, lg, tag, table))
+			return
+		}
+	}
+	r.Floor(rule, n, floor)
+	r.OK(rule, key, p.Pos(mv.Pos), fmt.Sprintf("%d representative languages are written in their script according to %s", n, table))
+}
